@@ -91,7 +91,13 @@ def validate(ctx: Ctx, family: str, module: str, prefixes, *, min_events, chunk=
                 groups.append((g0, b))
                 g0 = b
     else:
-        groups = [(i, min(len(ev), i + chunk)) for i in range(0, len(ev), chunk)]
+        groups, g0 = [], 0
+        for i, e in enumerate(ev):
+            # never cut between the "reset" event carrying the pre-state and the operation it belongs to
+            if i - g0 >= chunk and (e.get("o") or {}).get("op", "reset") == "reset":
+                groups.append((g0, i))
+                g0 = i
+        groups.append((g0, len(ev)))
     for g0, g1 in groups:
         for idx, clause, known in ctx.validate_trace(module, ev[g0:g1], cfg_text(spec="Spec"), chunk=10 ** 9, timeout=3000,
                                                      name=f"suite-{family}-{g0}"):
